@@ -47,6 +47,9 @@ pub enum ExpEv {
 pub struct Exp {
     /// (block start, block size, kind, operand): RMWs on the counter living in that block
     pub rmw: Vec<(usize, usize, Rmw, usize)>,
+    /// indices into `rmw` that the implementation may legitimately skip: the decrement of a release
+    /// that destroys the value (nobody can observe the count afterwards)
+    pub rmw_optional: Vec<usize>,
     pub drops: Vec<(u8, u32)>,
     pub clones: Vec<(u8, u32, u32)>,
     pub events: Vec<ExpEv>,
@@ -60,18 +63,21 @@ pub fn compare(exp: &Exp, d: &Delta, home: u32, sem: bool, what: &str, cx: &mut 
     let lc = if sem { home } else { LIFETIME | home };
     // --- reference-count traffic
     let got: Vec<&AOp> = d.atom.iter().filter(|a| a.is_rmw()).collect();
-    let mut ok = got.len() == exp.rmw.len();
-    if ok {
-        for (g, e) in got.iter().zip(exp.rmw.iter()) {
-            let inside = g.addr >= e.0 && g.addr < e.0 + e.1.max(1);
-            if !(inside && g.kind == AKind::Rmw(e.2) && g.arg == e.3) {
-                ok = false;
-            }
-        }
+    let matches = |want: &[(usize, usize, Rmw, usize)]| -> bool {
+        got.len() == want.len()
+            && got.iter().zip(want.iter()).all(|(g, e)| {
+                let inside = g.addr >= e.0 && g.addr < e.0 + e.1.max(1);
+                inside && g.kind == AKind::Rmw(e.2) && g.arg == e.3
+            })
+    };
+    let mut ok = matches(&exp.rmw);
+    if !ok && !exp.rmw_optional.is_empty() {
+        let reduced: Vec<_> = exp.rmw.iter().enumerate().filter(|(i, _)| !exp.rmw_optional.contains(i)).map(|(_, e)| *e).collect();
+        ok = matches(&reduced);
     }
     if !ok {
         let f = if sem { Ctx::fail_derail } else { Ctx::fail };
-        f(cx, if sem { home } else { COUNT | (home & THIN) }, "rmw-traffic", format!("{}: counter writes differ: expected {:?} (block,size,kind,operand), got {:?}", what, exp.rmw, got.iter().map(|g| (g.addr, g.kind, g.arg)).collect::<Vec<_>>()));
+        f(cx, if sem { home } else { COUNT | (home & (THIN | COW | UNWRAP)) }, "rmw-traffic", format!("{}: counter writes differ: expected {:?} (block,size,kind,operand), got {:?}", what, exp.rmw, got.iter().map(|g| (g.addr, g.kind, g.arg)).collect::<Vec<_>>()));
     }
     // --- destructors
     let mut a = d.drops.clone();
